@@ -343,7 +343,7 @@ def replay(case):
 
 
 def main():
-    rep = report.Report(PID, "exploration")
+    rep = report.Report(PID, "fault_enumeration")
     q = rep.tier != "thorough"
     extra = SEED_TOKENS[rep.seed % len(SEED_TOKENS)]
     big = ALPHA24 + [extra]
